@@ -487,25 +487,28 @@ Definition scalar_token (s : scalar) : jtoken :=
   | SUndef | SBin _ | SOther => TNull
   end.
 
+(* the children of a hash after the first: `:` value `,` key `:` value ... *)
+Definition alt_gen (f : ev -> list jtoken) :=
+  fix go (colon : bool) (l : list ev) {struct l} : list jtoken :=
+    match l with
+    | [] => []
+    | x :: l' => (if colon then Colon else Comma) :: f x ++ go (negb colon) l'
+    end.
+
 Fixpoint render (e : ev) : list jtoken :=
   match e with
   | EAdd s => [scalar_token s]
   | ERef n => ref_tokens n
   | EArr l =>
-      LBrack :: (fix elems (l0 : list ev) : list jtoken :=
-                   match l0 with
-                   | [] => []
-                   | [x] => render x
-                   | x :: l' => render x ++ Comma :: elems l'
-                   end) l ++ [RBrack]
+      LBrack :: match l with
+                | [] => []
+                | x :: l' => render x ++ flat_map (fun y => Comma :: render y) l'
+                end ++ [RBrack]
   | EHash l =>
-      LBrace :: (fix members (l0 : list ev) : list jtoken :=
-                   match l0 with
-                   | [] => []
-                   | [k] => render k
-                   | [k; v] => render k ++ Colon :: render v
-                   | k :: v :: l' => render k ++ Colon :: render v ++ Comma :: members l'
-                   end) l ++ [RBrace]
+      LBrace :: match l with
+                | [] => []
+                | k :: l' => render k ++ alt_gen render true l'
+                end ++ [RBrace]
   end.
 
 (* what a JSON text can carry of an event: strings as valid UTF-8 (each invalid byte becomes U+FFFD, every
